@@ -42,12 +42,15 @@ def plan(tier, seed):
     for k in range(nh):
         specs.append(dict(kind='history', sub=k, n=3 + k % 4,
                           steps=3000 if tier == 'thorough' else 500,
-                          auto=(k % 3 == 2), hashseed=k))
+                          auto=(k % 3 == 2), dynamic=(k % 4 == 1 or
+                                                      k % 6 == 2),
+                          hashseed=k))
     meta = dict(
         rule=RULE,
         require=['route_results', 'all4_functions', 'steps',
                  'quiescent_checks', 'route_nodes', 'route_copy',
-                 'route_pickle', 'route_expr'],
+                 'route_pickle', 'route_expr', 'dynamic_histories',
+                 'built_through_autoref_find_or_add'],
         assumptions=[
             'truth-table model in vf/oracle.py',
             'find_or_add is called by the harness only with children '
@@ -204,7 +207,24 @@ def history(ctx, spec):
     if kind == 'autoref':
         reg = monitors.HandleRegistry()
         reg.install()
-    w = World(ctx, rng, names, kind=kind, strict=False, registry=reg)
+    import dd.bdd as _b
+    dynamic = spec.get('dynamic', False)
+    starts0 = _b.REORDER_STARTS
+    if dynamic:
+        # canonical "for every history": also histories in which the
+        # library reorders by itself in the middle of operations
+        _b.REORDER_STARTS = 4 + spec['sub'] % 4
+    try:
+        _history(ctx, spec, rng, names, kind, reg, dynamic)
+    finally:
+        _b.REORDER_STARTS = starts0
+        if reg:
+            reg.uninstall()
+
+
+def _history(ctx, spec, rng, names, kind, reg, dynamic):
+    w = World(ctx, rng, names, kind=kind, strict=False, registry=reg,
+              reordering=dynamic)
     menu = dict(build=6, apply=8, ite=4, quantify=2, let_const=2,
                 let_rename=2, let_compose=2, add_expr=2, drop=6, gc=4,
                 swap=4 if kind == 'bdd' else 0, sift=2, reorder_to=2,
@@ -212,6 +232,12 @@ def history(ctx, spec):
                 undeclare=2 if kind == 'bdd' else 0, canon=10,
                 copy_roundtrip=2, dump_load=2,
                 gc_rooted=1, clone=1 if kind == 'bdd' else 0)
+    if dynamic:
+        # (steps that keep an unreferenced dd.bdd result across another
+        # operation are left out: reordering may legitimately free it)
+        menu.update(rearm=4, gc_rooted=0, clone=0, canon=0, dump_load=0,
+                    undeclare=0, declare=0)
+        ctx.counters['dynamic_histories'] += 1
     for k in range(spec['steps']):
         ok, res = ctx.guard(w.site, w.step, menu, case=dict(
             spec=spec, step=k, tail=[list(map(str, d)) for d in w.log[-6:]]))
@@ -230,8 +256,6 @@ def history(ctx, spec):
     ctx.sample(dict(kind='history', n=spec['n'], manager=kind,
                     last_steps=[list(map(str, d)) for d in w.log[-6:]]))
     ctx.guard('shutdown', w.finish)
-    if reg:
-        reg.uninstall()
 
 
 def run_shard(ctx, spec):
